@@ -11,11 +11,11 @@ use std::sync::Arc;
 lazy_static! {
     static ref MAP: Arc<Function> = Code::parse(
         &Interpreter::without_stdlib(),
-        "(func: () -> (bool, int), mapper: (int) -> int) -> () -> (bool, int) {
+        "(func: () -> (bool, int), mapper: (int) -> int, default: int) -> () -> (bool, int) {
             return () -> (bool, int) {
                 res := func();
                 (con, value) := res;
-                if !con return res;
+                if !con return (false, default);
                 return (true, mapper(value));
             }
         }"
@@ -39,8 +39,10 @@ pub fn exec(iter: Variable, function: Variable) -> ExecResult {
     #[cfg(feature = "verif")]
     let _helper = crate::verif::helper_scope();
     let result_type = function.as_type().return_type().unwrap();
+    // the filler an exhausted iterator yields has the mapped type, not the source's
+    let default = Variable::of_type(&result_type).unwrap_or(Variable::Void);
     let result = MAP
-        .exec_with_args(&[iter, function])?
+        .exec_with_args(&[iter, function, default])?
         .into_function()
         .unwrap();
     let mut result = Arc::unwrap_or_clone(result);
